@@ -1,4 +1,5 @@
 """C06 — a connection lasts as long as its token allows and no longer"""
+from relaymain import RelayMainMode, RELAYMAIN_RULE
 import vlib
 from relaycommon import RelayMode
 
@@ -18,6 +19,8 @@ THEOREMS = [(f"Expiry.{n}", P) for n in ["closes_within_a_second", "overflow_clo
                                          "early_or_late_code_admits_none", "cooperative_survives", "keepalive_constants",
                                          "cooperative_survives_current", "no_relay_after_close", "wrap64_id"]] + \
            [("Life.all_released", "Relay.Props.C13")]
+RULE = RULE + RELAYMAIN_RULE
+
 
 
 class ExpiryMode(vlib.Mode):
@@ -120,4 +123,4 @@ class ExpiryMode(vlib.Mode):
 
 
 def modes(tier):
-    return [ExpiryMode(), RelayMode("C06")]
+    return [ExpiryMode(), RelayMode("C06"), RelayMainMode("C06", 3)]
